@@ -1850,9 +1850,14 @@ impl PartialEq for Secret {
                     user_data: user_data_b,
                 },
             ) => {
-                items_a.iter().zip(items_b.iter()).all(|(a, b)| {
-                    a.0 == b.0 && a.1.expose_secret() == b.1.expose_secret()
-                }) && user_data_a == user_data_b
+                items_a.len() == items_b.len()
+                    && items_a.iter().all(|(k, v)| {
+                        items_b
+                            .get(k)
+                            .map(|o| o.expose_secret() == v.expose_secret())
+                            .unwrap_or(false)
+                    })
+                    && user_data_a == user_data_b
             }
             (
                 Self::Pem {
